@@ -9,7 +9,9 @@ MANIFEST = {
             "identical (uniqueness of strictly sorted permutations); emission in raw iteration order is refuted. Tie: the observed "
             "order of G[..] assignments equals the model's sorted order; every insertion permutation (all for k<=4 files, sampled "
             "for k<=6), import_group vs direct insertion, and >= 8 fresh processes (fresh hash seeds) must give byte-identical "
-            "artefacts; stylesheets are transformed twice per process and across processes.",
+            "artefacts, also when the process compiled other groups before (three compilation orders of the same groups across the "
+            "processes) and for files with several imports of files of the group; stylesheets are transformed twice per process and "
+            "across processes.",
     "note": "'Every process' is sampled (8 quick / 24 thorough fresh processes); the theorem replaces it by 'every iteration order'. "
             "The model covers the emission order of trees, scripts and binding-map fields; the text of each item is produced by "
             "deterministic code paths (no other HashMap is iterated when emitting).",
@@ -23,8 +25,10 @@ def run(res):
     ok, what = proof_phase(res, "C20", THEOREMS)
     exe = harness_build()
     n_proc = 24 if res.tier == "thorough" else 8
-    procs = [subprocess.Popen([exe, "determinism", res.tier, str(res.seed)], stdout=subprocess.PIPE, stderr=subprocess.PIPE)
-             for _ in range(n_proc)]
+    # every process compiles the same groups; two thirds of them in another order (reversed / script-less groups first): what a
+    # group emits must not depend on what the process compiled before it
+    procs = [subprocess.Popen([exe, "determinism", res.tier, str(res.seed), str(i % 3)], stdout=subprocess.PIPE, stderr=subprocess.PIPE)
+             for i in range(n_proc)]
     outs = []
     for p in procs:
         o, e = p.communicate(timeout=3000)
@@ -55,8 +59,9 @@ def run(res):
         for a, b in zip(ref, o):
             if a != b:
                 found = True
-                res.violation("output differs between two processes (fresh hash seeds): process 0: %s | process %d: %s" % (
-                    a[:300], k + 1, b[:300]), {"process0": a, "other": b, "seed": res.seed})
+                res.violation("output differs between two processes (fresh hash seeds; process %d compiles the groups in order #%d): "
+                              "process 0: %s | process %d: %s" % (k + 1, (k + 1) % 3, a[:300], k + 1, b[:300]),
+                              {"process0": a, "other": b, "seed": res.seed, "compilation_order_of_other": (k + 1) % 3})
                 break
     cases = split_cases("\n".join(l for l in ref if l.startswith("sort_keys")))
     model = modelrun([c[0] for c in cases])
